@@ -3,7 +3,7 @@
 (* intact.  Instance: three addresses (every membership history: never / member   *)
 (* / former / re-added), ownership transfer, callers x authorisers, two probe     *)
 (* targets, return values u32 / string / vector / unit, and a target that traps.  *)
-EXTENDS Operators, Json, SequencesExt
+EXTENDS Operators, Json, SequencesExt, AuthShapes
 VARIABLE st
 
 Ops == {"a", "b", "c"}   \* three, so that every removal order of a set with an element before and after it occurs
@@ -21,6 +21,9 @@ Acts(s) ==
     \* function): that is not an authorisation of THIS call
     \cup {[name |-> "Execute", op |-> o, target |-> t, fn |-> "echo", arg |-> g, auth |-> {}, scoped |-> {o}] :
             o \in Ops, t \in {"p1", "p2"}, g \in {"u32", "unit"}}
+    \* ... or omits one of operator / contract / function / argument list
+    \cup {[name |-> "Execute", op |-> o, target |-> "p1", fn |-> "echo", arg |-> "u32", auth |-> {}, scopedAuth |-> {o}, keepArgs |-> ks] :
+            o \in Ops, ks \in ProperKeeps(4)}
     \cup {[name |-> "TransferOwnership", new |-> n, auth |-> {s.owner}] : n \in {"owner0", "carol"}}
 
 Init == st = [ops |-> [x \in Accts |-> "never"], owner |-> "owner0"]
